@@ -59,7 +59,13 @@ manifest = {
                           '(reference ODE core behind myokit.Simulation)'}],
     'checks': checks,
     'not_applicable': na,
-    'notes': 'See DESIGN.md. VERIF_SEED and VERIF_TIER are honoured; CHI_REPO selects the tree under test (default /repo).',
+    'notes': 'See DESIGN.md. VERIF_SEED and VERIF_TIER are honoured; CHI_REPO selects the tree under test (default /repo). '
+             'Exit codes: 0 held, 1 violated (VIOLATION line with a replay file), 2 inconclusive (a required monitor '
+             'counter below its minimum, a harness error, or the wall-clock watchdog of 900 s quick / 5400 s thorough per '
+             'shard cut the workload short). Known findings: known_findings.json (committed, never written at run time; '
+             'classifiers by mechanism in harness/findings.py). Quick tier of all 20 checks: about 4 minutes on 16 idle '
+             'cores; thorough tier: about 45 minutes. Self-test of the monitors against reverse mutants of the repairs and '
+             'the seeded changes under seeded/: selftest/run_selftest.py (results in selftest/RESULTS.md).',
 }
 json.dump(manifest, open(os.path.join(VERIF, 'MANIFEST.json'), 'w'), indent=1)
 print('checks:', [c['property_id'] for c in checks], 'n/a:', len(na))
